@@ -135,16 +135,17 @@ func kind(st *state.Registry, dir proto.Direction, p proto.Protocol, payload []b
 }
 
 var (
-	tDisconnect     = reflect.TypeOf(packet.Disconnect{})
-	tLoginSuccess   = reflect.TypeOf(packet.ServerLoginSuccess{})
-	tSetCompression = reflect.TypeOf(packet.SetCompression{})
-	tKeepAlive      = reflect.TypeOf(packet.KeepAlive{})
-	tJoinGame       = reflect.TypeOf(packet.JoinGame{})
-	tFinished       = reflect.TypeOf(config.FinishedUpdate{})
-	tStartUpdate    = reflect.TypeOf(config.StartUpdate{})
-	tHandshake      = reflect.TypeOf(packet.Handshake{})
-	tServerLogin    = reflect.TypeOf(packet.ServerLogin{})
-	tLoginAck       = reflect.TypeOf(packet.LoginAcknowledged{})
+	tDisconnect        = reflect.TypeOf(packet.Disconnect{})
+	tLoginSuccess      = reflect.TypeOf(packet.ServerLoginSuccess{})
+	tSetCompression    = reflect.TypeOf(packet.SetCompression{})
+	tKeepAlive         = reflect.TypeOf(packet.KeepAlive{})
+	tJoinGame          = reflect.TypeOf(packet.JoinGame{})
+	tFinished          = reflect.TypeOf(config.FinishedUpdate{})
+	tStartUpdate       = reflect.TypeOf(config.StartUpdate{})
+	tHandshake         = reflect.TypeOf(packet.Handshake{})
+	tServerLogin       = reflect.TypeOf(packet.ServerLogin{})
+	tLoginAck          = reflect.TypeOf(packet.LoginAcknowledged{})
+	tEncryptionRequest = reflect.TypeOf(packet.EncryptionRequest{})
 )
 
 // JoinGameFor returns a JoinGame that gate can encode and decode for the protocol.
